@@ -92,7 +92,7 @@ def schedule_scenarios(seed, n):
             st["step_size"] = rnd.choice([0.25, 0.5])
             st["momentum_decoherence_length"] = rnd.choice([1.0, 2.0])
             st["dynamic_step_size"] = rnd.random() < 0.5
-        if preset == "diag_nuts":
+        if preset in ("diag_nuts", "lowrank_nuts"):
             st["store_unconstrained"] = True
             st["store_gradient"] = True
         if "flow" in preset:
@@ -110,6 +110,8 @@ def schedule_scenarios(seed, n):
                            "mass_matrix_window_growth": rnd.choice([1.0, 1.25, 1.5, 2.0])})
             if preset == "diag_nuts":
                 ao["mass_matrix_options"] = {"store_mass_matrix": True, "use_grad_based_estimate": rnd.random() < 0.8}
+            if preset == "lowrank_nuts":
+                ao["mass_matrix_options"] = {"store_mass_matrix": True}
             st["adapt_options"] = ao
         out.append({"preset": preset, "dim": dim, "density": dens, "settings": st, "seed": rnd.randrange(1 << 30),
                     "chain": rnd.randrange(3), "init": [rnd.uniform(-1, 1) for _ in range(dim)]})
